@@ -751,6 +751,10 @@ func init() {
 			}
 			return mkBV(64, ^uint64(0))
 		},
+		// sort.Slice / sort.SliceStable (reflection-based swapper): in-place insertion sort driven by the
+		// caller's less function (one of the orders sort.Slice may produce; stable)
+		"sort.Slice":       sortSliceIntrinsic,
+		"sort.SliceStable": sortSliceIntrinsic,
 		"internal/abi.NoEscape":          func(r *Run, c *frame, fn *ssa.Function, a []Value) Value { return a[0] },
 		"(*strings.Builder).copyCheck": noop,
 		"(*strings.Builder).String": func(r *Run, c *frame, fn *ssa.Function, a []Value) Value {
@@ -1028,4 +1032,27 @@ func (r *Run) deepEqual(x, y Value, depth int) *Term {
 		return mkBool(x == nil && isNilFunc(y))
 	}
 	return r.eqVal(x, y)
+}
+
+func sortSliceIntrinsic(r *Run, c *frame, fn *ssa.Function, a []Value) Value {
+	x := a[0]
+	if iv, ok := x.(Iface); ok {
+		x = iv.V
+	}
+	sl, ok := x.(Slice)
+	if !ok {
+		panic(unsupported("sort.Slice of a non-slice"))
+	}
+	less := a[1]
+	n := len(sl.S)
+	for i := 1; i < n; i++ {
+		for j := i; j > 0; j-- {
+			res := r.call(c, token.NoPos, less, []Value{mkBV(64, uint64(j)), mkBV(64, uint64(j-1))})
+			if !r.branch(res.(*Term)) {
+				break
+			}
+			sl.S[j], sl.S[j-1] = sl.S[j-1], sl.S[j]
+		}
+	}
+	return nil
 }
